@@ -76,10 +76,24 @@ impl Ctx {
         if self.cur_nontrivial {
             let fp = case.fingerprint();
             if self.nontrivial.insert(fp) && self.samples.len() < 4 {
-                self.samples.push(case.to_sample());
+                let s = case.to_sample();
+                if self.sample_ok(&s) {
+                    self.samples.push(s);
+                }
             }
         }
     }
+    /// At most two samples come from enumerated / scenario sub-runs so that
+    /// the random tier is represented among the samples too.
+    fn sample_ok(&self, s: &serde_json::Value) -> bool {
+        let is_enum = |v: &serde_json::Value| {
+            v["sub"].as_str().map_or(false, |x| {
+                ["exhaustive", "sweep", "cell", "long-pattern", "scenario", "hammer", "regression"].iter().any(|p| x.starts_with(p))
+            })
+        };
+        !is_enum(s) || self.samples.iter().filter(|x| is_enum(x)).count() < 2
+    }
+
     pub fn merge(&mut self, other: Ctx) {
         self.evals += other.evals;
         self.enumerated += other.enumerated;
@@ -92,7 +106,7 @@ impl Ctx {
             *self.counters.entry(k).or_insert(0) += v;
         }
         for s in other.samples {
-            if self.samples.len() < 8 {
+            if self.samples.len() < 8 && self.sample_ok(&s) {
                 self.samples.push(s);
             }
         }
